@@ -219,6 +219,43 @@ func propC13(c *Ctx) {
 		}
 	})
 
+	c.Rule("C13.R3", func() {
+		fn := childHandler(c, "RemoveValidator")
+		o := c.Ob("C13.R3", "RemoveValidator: only an existing record is rewritten, as the same record with ConsPower := 0")
+		po := PO{Params: hParams, NoInline: []string{".Validate", "Keeper).SetValidator", "Keeper).GetValidator"}}
+		for _, p := range c.Paths(fn, po) {
+			o.Paths++
+			o.Facts += p.NFacts()
+			for _, i := range p.Find(func(ev *Event) bool { return ev.Kind == EvCall && strings.HasSuffix(ev.Call.Name, "Keeper).SetValidator") }) {
+				o.Sites++
+				ev := &p.Events[i]
+				v := ev.Call.Args[2]
+				var get *Term
+				for j := 0; j < i; j++ {
+					if e2 := &p.Events[j]; e2.Kind == EvCall && strings.HasSuffix(e2.Call.Name, "Keeper).GetValidator") {
+						get = e2.Call
+					}
+				}
+				if get == nil {
+					o.Fail(c.evPos(ev), "record written without loading it first", c.Dump(p, i))
+					continue
+				}
+				if d := decodedFrom(get.Args[2]); d == nil || d.Key() != "req.ValidatorAddress" {
+					o.Fail(c.evPos(ev), "loaded validator "+trunc(get.Args[2].Key(), 100)+" instead of req.ValidatorAddress", c.Dump(p, i))
+				}
+				if !p.factIs(i, get.String()+".1", true) {
+					o.Fail(c.evPos(ev), "a record is written although the validator was not found (creates an empty zero-power record)", c.Dump(p, i))
+				}
+				if v.Key() != get.Key()+".0{ConsPower:=0}" {
+					o.Fail(c.evPos(ev), "stores "+trunc(v.Key(), 160)+", want the loaded record with ConsPower:=0", c.Dump(p, i))
+				}
+			}
+		}
+		if o.Sites == 0 {
+			o.Fail(c.W.Pos(fn.Pos()), "no SetValidator reached", nil)
+		}
+	})
+
 	c.Rule("C13.R4", func() {
 		fn := c.Method(childKeeper, "Keeper", "ApplyAndReturnValidatorSetUpdates")
 		o := c.Ob("C13.R4", "ApplyAndReturnValidatorSetUpdates: every update told to consensus is recorded (and vice versa)")
@@ -329,6 +366,39 @@ func propC13(c *Ctx) {
 					o.Fail(c.evPos(&p.Events[i]), "last-power record changed without telling consensus", c.Dump(p, -1))
 				}
 			}
+			// completeness: a stored validator with positive power is reported iff it is new or its power changed
+			for i := range p.Events {
+				ev := &p.Events[i]
+				if ev.Kind != EvFact || !ev.Pol || ev.Cond.Op != "bin" || ev.Cond.Name != "<" || ev.Cond.Args[0].Key() != "0" {
+					continue
+				}
+				pw := ev.Cond.Args[1]
+				if !strings.HasSuffix(pw.Key(), ".ConsPower") || !strings.HasPrefix(pw.Key(), allV+"[") {
+					continue
+				}
+				v := pw.Args[0]
+				lk := func(a *Term) bool {
+					return a.Op == "extract" && a.Args[0].Op == "lookup" && a.Args[0].Args[0].Key() == lastM && a.Args[0].Args[1].Key() == v.Key()+".OperatorAddress"
+				}
+				notFound := p.HasFact(len(p.Events), func(a *Term, pol bool) bool { return !pol && lk(a) && a.Name == "1" })
+				found := p.HasFact(len(p.Events), func(a *Term, pol bool) bool { return pol && lk(a) && a.Name == "1" })
+				changed := p.HasFact(len(p.Events), func(a *Term, pol bool) bool {
+					return !pol && a.Op == "bin" && a.Name == "==" && ((lk(a.Args[0]) && a.Args[0].Name == "0" && a.Args[1].Key() == pw.Key()) || (lk(a.Args[1]) && a.Args[1].Name == "0" && a.Args[0].Key() == pw.Key()))
+				})
+				same := p.HasFact(len(p.Events), func(a *Term, pol bool) bool {
+					return pol && a.Op == "bin" && a.Name == "==" && ((lk(a.Args[0]) && a.Args[0].Name == "0" && a.Args[1].Key() == pw.Key()) || (lk(a.Args[1]) && a.Args[1].Name == "0" && a.Args[0].Key() == pw.Key()))
+				})
+				isTold := told[opAddrKey(v)]
+				if (notFound || changed) && !isTold {
+					o.Fail(c.evPos(ev), "a new or re-powered validator is not reported to consensus", c.Dump(p, -1))
+				}
+				if found && same && isTold {
+					o.Fail(c.evPos(ev), "an unchanged bonded validator is reported again", c.Dump(p, -1))
+				}
+				if !notFound && !found {
+					o.Fail(c.evPos(ev), "the last-power lookup of a bonded validator is not consulted", c.Dump(p, -1))
+				}
+			}
 			// bonded validators leave the 'last' map (otherwise they are reported as removed)
 			for i := range p.Events {
 				ev := &p.Events[i]
@@ -345,6 +415,28 @@ func propC13(c *Ctx) {
 				})
 				if len(del) == 0 {
 					o.Fail(c.evPos(ev), "a bonded validator is not deleted from the last-power map before the removal pass (it would be reported as removed)", c.Dump(p, -1))
+				}
+			}
+		}
+		// the removal pass may refuse only validators whose power is positive
+		for _, p := range c.Paths(fn, applyPO) {
+			if p.Panic || p.OK() || len(p.Ret) != 2 {
+				continue
+			}
+			if r := p.Ret[1]; r.Op == "call" && r.Name == "errors.New" {
+				o.Sites++
+				okPos := false
+				for i := range p.Events {
+					ev := &p.Events[i]
+					if ev.Kind != EvFact {
+						continue
+					}
+					if rf, ok := factRel(ev.Cond, ev.Pol); ok && strings.HasSuffix(rf.Y.Key(), ".ConsPower") && strings.Contains(rf.Y.Key(), "mustGetValidator") && rf.X.Key() == "0" && rf.Rel == rLT {
+						okPos = true
+					}
+				}
+				if !okPos {
+					o.Fail(c.W.Pos(fn.Pos()), "the removal pass fails block processing for a validator whose power is not positive", c.Dump(p, -1))
 				}
 			}
 		}
@@ -397,6 +489,11 @@ func propC13(c *Ctx) {
 				}
 			}
 		}
+	})
+
+	c.Rule("C13.R8", func() {
+		errorDiscipline(c, "C13.R8", "opchild.EndBlocker", c.Func("opchild", "EndBlocker"), PO{Params: []string{"ctx", "k"}, Visits: 2, Callbacks: true})
+		errorDiscipline(c, "C13.R8", "opchild.BeginBlocker", c.Func("opchild", "BeginBlocker"), PO{Params: []string{"ctx", "k"}, Visits: 2, Callbacks: true})
 	})
 
 	c.Rule("C13.R7", func() {
